@@ -10,11 +10,10 @@ for d in /verif/seeded/*/; do
   if ! git -C /repo apply --check $d/patch.diff 2>/dev/null; then echo -e "$sid\t$prop\t$prop\tNOAPPLY\t-\t-" >> $OUT; continue; fi
   git -C /repo apply $d/patch.diff
   t0=$(date +%s)
-  ./check $prop --tier quick > /tmp/seedrun_$sid.log 2>&1; rc=$?
+  VERIF_EVIDENCE_DIR=/tmp/seed_evidence ./check $prop --tier quick > /tmp/seedrun_$sid.log 2>&1; rc=$?
   t1=$(date +%s)
   nv=$(grep -c '^VIOLATION' /tmp/seedrun_$sid.log)
   git -C /repo checkout -- .
   echo -e "$sid\t$prop\t$prop\t$rc\t$nv\t$((t1-t0))" >> $OUT
 done
-git -C /verif checkout -- evidence 2>/dev/null
 echo done
